@@ -581,6 +581,12 @@ class SyncObj(object):
         if self.__needLoadDumpFile:
             if self.__fullDumpFile is not None and os.path.isfile(self.__fullDumpFile):
                 self.__loadDumpFile(clearJournal=False)
+            if self.__conf.dynamicMembershipChange:
+                # Cluster changes take effect when they enter the log: restore those of the journal.
+                for entry in self.__getEntries(self.__raftLog[0][1]):
+                    clusterChangeRequest = self.__parseChangeClusterRequest(entry[0])
+                    if clusterChangeRequest is not None:
+                        self.__doChangeCluster(clusterChangeRequest)
             self.__needLoadDumpFile = False
 
         workTime = monotonicTime() - self.__startTime
@@ -852,13 +858,8 @@ class SyncObj(object):
                 callback(oldVer, ver)
             return
 
-        #  This is required only after node restarts and apply journal
-        # for normal case it is already done earlier and calls will be ignored
-        clusterChangeRequest = self.__parseChangeClusterRequest(command)
-        if clusterChangeRequest is not None:
-             self.__doChangeCluster(clusterChangeRequest)
-             return
-
+        # Cluster changes were made when the entry was appended (after a restart: when the
+        # journal was read); doing them again here would undo a later change already in the log.
         if commandType != _COMMAND_TYPE.REGULAR:
             return
         command = pickle.loads(command[1:])
